@@ -671,6 +671,14 @@ func restoreGroupState(group *metadatapb.ConsumerGroup) *groupState {
 		assignments:      make(map[string][]assignmentTopic),
 		rebalanceTimeout: rebalanceTimeout,
 	}
+	// Which members had already rejoined is not persisted. A group stored while
+	// a rebalance was still collecting joins must therefore wait for every
+	// member again; treating them all as joined would complete the rebalance on
+	// the first join that reaches the new coordinator.
+	joinGeneration := group.GenerationId
+	if state.state == groupStatePreparingRebalance {
+		joinGeneration = 0
+	}
 	for memberID, member := range group.Members {
 		sessionTimeout := defaultSessionTimeout
 		if member.SessionTimeoutMs > 0 {
@@ -679,7 +687,7 @@ func restoreGroupState(group *metadatapb.ConsumerGroup) *groupState {
 		entry := &memberState{
 			topics:         append([]string(nil), member.Subscriptions...),
 			sessionTimeout: sessionTimeout,
-			joinGeneration: group.GenerationId,
+			joinGeneration: joinGeneration,
 		}
 		if member.HeartbeatAt != "" {
 			if parsed, err := time.Parse(time.RFC3339Nano, member.HeartbeatAt); err == nil {
